@@ -33,7 +33,7 @@ def run_property(prop, tier):
     if not st["ok"]:
         # which of this property's obligations are affected?
         failing = common.failing_modules(st.get("build_log", ""))
-        mine = {t["file"][:-5].replace("/", ".") for t in ths}
+        mine = {t["module"] for t in ths}
         tie = set(getattr(mod, "TIE_MODULES", []))
         if st["stage_failed"] == "extract":
             proof_broken.append("translator failed: " + "; ".join(m for m in st.get("extract", []) if "FAILED" in m))
